@@ -884,6 +884,8 @@ func jsonLines(r *rng, n int, thorough bool) []jsonLine {
 		}
 		add([]byte(d), "valid/rich")
 	}
+	// numbers beyond float64 are valid JSON and are carried as they are
+	add([]byte(`{"a":1e400,"b":-2.5E+1000,"c":[1e-400,123456789012345678901234567890.5]}`), "valid/numbers beyond float64")
 	// an escaped backslash followed by the letters of an HTML escape: text, not an escape
 	add([]byte(`{"a":"\\u003c","\\u0026k":["x\\u003e\\",{"b\\\\u003c":"\\\\u0026"}]}`), "valid/literal backslash-u")
 	// valid shallow lines with very many containers (a count of open containers must go down again when one closes)
